@@ -73,8 +73,12 @@ fn schema_value(col: &Column, salt: i32) -> Value {
 
 /// Runs the battery.  `strict_alloc`: judge the largest single allocation.
 pub fn run_battery(bytes: &[u8], strict_alloc: bool) -> Result<Outcome, Fail> {
+    // The budget is a deterministic stand-in for "does not end": an endless
+    // loop passes any bound within a second or two (an in-memory call costs
+    // ~30 ns), while the whole battery on the most call-hungry 30 KiB files
+    // libFuzzer has found so far stays below one million calls.
     let sectors = (bytes.len() / 512 + 1) as u64;
-    let budget = 400_000 + 4_000 * sectors;
+    let budget = std::env::var("VERIF_IO_BUDGET").ok().and_then(|v| v.parse::<u64>().ok()).unwrap_or(20_000_000 + 40_000 * sectors);
     let shared = SharedBuf::new(bytes.to_vec());
     let medium = Instrumented::new(shared.clone()).with_budget(budget);
     let counts = medium.counts.clone();
